@@ -620,10 +620,13 @@ impl AssetCategorizer {
         let mut dependable_value = None;
         let mut min_value = None;
         if let Some(last_output) = tx_proposal.get_outputs().last() {
+            //the last output and the fee are paid from what the inputs leave after the other outputs:
+            //the unused ada, the ada already assigned to the last output and the current fee
             dependable_value = Some(
                 tx_proposal
                     .get_unused_ada()?
-                    .checked_add(&last_output.get_total_ada())?,
+                    .checked_add(&last_output.get_total_ada())?
+                    .checked_add(tx_proposal.get_fee())?,
             );
             min_value = Some(last_output.get_min_ada());
             tx_len -= CborCalculator::get_coin_size(&last_output.get_total_ada());
